@@ -99,3 +99,9 @@ func VerifModHashList(s *ServantProxy) []endpoint.Endpoint {
 	}
 	return nil
 }
+
+// VerifNewServerAny is VerifNewServer for a dispatcher held in an interface value
+// (the generated family modules are only known through reflection).
+func VerifNewServerAny(v interface{}, f interface{}, withContext bool, conf *transport.TarsServerConf) (*transport.TarsServer, *Protocol) {
+	return VerifNewServer(v.(dispatch), f, withContext, conf)
+}
